@@ -45,6 +45,9 @@ fn ends_before_empty_last_child(n: &dynp::Node) -> bool {
     }
 }
 
+/// GLR inputs of C13 are capped: the check calls Forest::solutions(), see the loop below
+const GLR_MAX_TOKENS: usize = 8;
+
 impl Prop for C13 {
     type Case = GCase;
     fn id(&self) -> &'static str {
@@ -83,7 +86,7 @@ impl Prop for C13 {
             .into()
     }
     fn assumptions(&self) -> Vec<String> {
-        vec!["default whitespace skipping (no Layout rule); inputs <= 10 tokens; <= 50 GLR trees per input".into()]
+        vec!["inputs <= 10 tokens (GLR: <= 8, because Forest::solutions() is exponential on highly ambiguous forests); <= 50 GLR trees per input".into()]
     }
     fn describe(&self, case: &GCase) -> Value {
         let bnf = case.spec.bnf();
@@ -134,6 +137,12 @@ impl Prop for C13 {
             st.class(&format!("grammar-{algo}"));
             for r in &rendered {
                 let inp = &r.text;
+                // Forest::solutions() (real code, not step-counted) recomputes shared sub-forests:
+                // on highly ambiguous grammars it is exponential in the token count
+                if algo == "GLR" && r.spans.len() > GLR_MAX_TOKENS {
+                    st.class("glr-input-skipped-over-8-tokens");
+                    continue;
+                }
                 st.sub();
                 dynp::reset_steps(if algo == "LR" { LR_STEPS } else { GLR_STEPS });
                 let mut solutions = 1;
@@ -247,7 +256,7 @@ impl Prop for C13 {
             // the same inputs once more through ONE parser instance: positions and spans of
             // every tree must still refer to ITS input
             {
-                let texts: Vec<&str> = rendered.iter().map(|r| r.text.as_str()).collect();
+                let texts: Vec<&str> = rendered.iter().filter(|r| algo == "LR" || r.spans.len() <= GLR_MAX_TOKENS).map(|r| r.text.as_str()).collect();
                 let trees: Vec<(usize, dynp::Node)> = if algo == "LR" {
                     dynp::lr_parse_session(&texts, RunOpts::default(), LR_STEPS)
                         .into_iter()
